@@ -40,7 +40,7 @@ func debugMain(repo string, args []string) {
 		f.WriteTo(os.Stdout)
 	case "envelopes":
 		for _, e := range p.Envelopes() {
-			fmt.Println(e.Key, e.Side, p.ipos(e.Alloc), "sinks:", len(e.Sinks))
+			fmt.Println(e.Key, e.Side, p.ipos(e.At()), "sinks:", len(e.Sinks))
 			for _, f := range rpcFields {
 				if fs := e.Fields[f]; len(fs.Stores) > 0 {
 					fmt.Printf("    %-8s must=%v nil?=%v %s\n", f, fs.Must, fs.MaybeNil, fs.Origins)
